@@ -357,7 +357,7 @@ func c02Shape(root *c02Node, names []string) string {
 func init() {
 	core.Register(&core.Check{
 		ID: "C02",
-		Rule: "for every resource of the schema-covering family (146 types, every field populated, each-choice covering, depth 2 quick / 3 thorough; typed/versioned/absolute/fragment/URN references, contained resources, Bundle entries, primitive ids and extensions, every date/time precision): the jsonformat JSON tree is walked in parallel with the proto to build the logical element tree; every name path of the tree and every prefix is evaluated un-indexed with and without the root type, with exactly one step indexed (each step, indexes 0, 1, len-1, len) and fully indexed down to every single element; results are compared with the tree by pointer identity (equal copy through Any-packed contained resources, string value for Reference.reference), in document order; for every primitive element that has a JSON value, `<fully indexed path>.value` must yield one System value equal to the JSON value (strings, codes, dates, dateTimes, instants and times textually - hence same instant, precision and offset -, numbers numerically, booleans by value); every other resource type as root gives empty; per message type, names of other types and proto-only names must fail with ErrInvalidField (unless the name is an element of another item's type at the same path: mixed contained resources, Bundle entries), and so must the rest of an indexed path whose selected item's type lacks the next name; non-trivial = distinct (resource, expression, outcome)",
+		Rule: "for every resource of the schema-covering family (146 types, every field populated, each-choice covering, depth 2 quick / 3 thorough; typed/versioned/absolute/fragment/URN references, contained resources, Bundle entries, primitive ids and extensions, every date/time precision): the jsonformat JSON tree is walked in parallel with the proto to build the logical element tree; every name path of the tree and every prefix is evaluated un-indexed with and without the root type, with exactly one step indexed (each step, indexes 0, 1, len-1, len) and fully indexed down to every single element; results are compared with the tree by pointer identity (equal copy through Any-packed contained resources, string value for Reference.reference), in document order; for every primitive element that has a JSON value, `<fully indexed path>.value` must yield one System value equal to the JSON value (strings, codes, dates, dateTimes, instants and times textually - hence same instant, precision and offset -, numbers numerically, booleans by value); every one of the other 145 resource type names as root gives empty; per message type, names of other types and proto-only names must fail with ErrInvalidField (unless the name is an element of another item's type at the same path: mixed contained resources, Bundle entries), and so must the rest of an indexed path whose selected item's type lacks the next name; non-trivial = distinct (resource, expression, outcome)",
 		Assumptions: []string{"google/fhir jsonformat defines the FHIR JSON tree", "the parallel JSON/proto walk uses only proto descriptors (JSON names, oneof 'choice', ContainedResource, Any)"},
 		Subs: func(tier string) []core.Sub {
 			names := lib.ResourceTypeNames()
@@ -545,7 +545,11 @@ func init() {
 					}
 					full(tn, root)
 					// every other root type gives empty
-					for _, other := range []string{"Patient", "Observation", "Basic", "Bundle"} {
+					others := []string{"Patient", "Observation", "Basic", "Bundle"}
+					if vi == 0 {
+						others = names // every other R4 resource type name, once per type
+					}
+					for _, other := range others {
 						if other == tn {
 							continue
 						}
